@@ -16,9 +16,10 @@ pub mod c16;
 pub mod c18;
 pub mod c19;
 pub mod c19_serde;
+pub mod c20;
 
 use crate::runner::PropSpec;
 
 pub fn registry() -> Vec<PropSpec> {
-    vec![c01::SPEC, c02::SPEC, c03::SPEC, c04::SPEC, c06::SPEC, c07::SPEC, c08::SPEC, c09::SPEC, c10::SPEC, c11::SPEC, c12::SPEC, c13::SPEC, c14::SPEC, c16::SPEC, c18::SPEC, c19::SPEC]
+    vec![c01::SPEC, c02::SPEC, c03::SPEC, c04::SPEC, c06::SPEC, c07::SPEC, c08::SPEC, c09::SPEC, c10::SPEC, c11::SPEC, c12::SPEC, c13::SPEC, c14::SPEC, c16::SPEC, c18::SPEC, c19::SPEC, c20::SPEC]
 }
